@@ -155,7 +155,8 @@ Lemma diffx_ext t1 : forall t2 p1 p2 e, In e (fst (dX t1 t2 p1 p2)) -> ext p1 (e
 Proof.
   induction t1 as [a|xs IH|xs IH|kvs IH|xs|xs] using value_ind'; intros t2 p1 p2 e H;
   (destruct (skip p1) eqn:S; [rewrite diffx_skip in H by exact S; destruct H|]);
-  (destruct (ty_eqb (type_of _) (type_of t2)) eqn:T;
+  (match type of H with In _ (fst (diffx _ _ _ _ _ _ _ ?t1 _ _ _)) =>
+     destruct (ty_eqb (type_of t1) (type_of t2)) eqn:T end;
     [|rewrite diffx_type in H by assumption; cbn [fst] in H; apply report_in in H; rewrite H; apply ext_refl]);
   apply same_type_shape in T; inversion T; subst.
   - rewrite diffx_atom in H by assumption. apply diff_atom_in in H. rewrite H. apply ext_refl.
@@ -286,8 +287,8 @@ Qed.
 
 Lemma drop_all es p : R p = false -> (forall e, In e es -> ext p (ep1 e)) -> filter keepR es = [].
 Proof.
-  intros H X. apply filter_none. intros e He. destruct (X e He) as [l ->]. unfold keep_entry.
-  destruct (X e He) as [l' E]. rewrite E. apply R_below_false. exact H.
+  intros H X. apply filter_none. intros e He. destruct (X e He) as [l E]. unfold keep_entry.
+  rewrite E. apply R_below_false. exact H.
 Qed.
 
 Lemma keep_at es p : R p = true -> (forall e, In e es -> ep1 e = p) -> filter keepR es = es.
@@ -317,14 +318,14 @@ Qed.
 Lemma added_from_R ys : forall j p1 p2, okp p1 = true -> R p1 = true ->
   added_from sk ys j p1 p2 = filter keepR (added_from no_skip ys j p1 p2).
 Proof.
-  induction ys as [|y ys IH]; intros j p1 p2 G H; cbn; [reflexivity|].
+  induction ys as [|y ys IH]; intros j p1 p2 G H; cbn [added_from]; [reflexivity|].
   rewrite filter_app, <- IH, <- report_idx_R by assumption. reflexivity.
 Qed.
 
 Lemma removed_from_R xs : forall j p1 p2, okp p1 = true -> R p1 = true ->
   removed_from sk xs j p1 p2 = filter keepR (removed_from no_skip xs j p1 p2).
 Proof.
-  induction xs as [|x xs IH]; intros j p1 p2 G H; cbn; [reflexivity|].
+  induction xs as [|x xs IH]; intros j p1 p2 G H; cbn [removed_from]; [reflexivity|].
   rewrite filter_app, <- IH, <- report_idx_R by assumption. reflexivity.
 Qed.
 
@@ -508,7 +509,8 @@ Theorem main_all t1 : Main t1.
 Proof.
   induction t1 as [a|xs IH|xs IH|kvs IH|xs|xs] using value_ind'; intros t2 p1 p2 W O1 O2 G H;
   pose proof (H1 p1 G H) as S;
-  (destruct (ty_eqb (type_of _) (type_of t2)) eqn:T;
+  (match goal with |- fst (diffx _ _ _ _ _ _ _ ?t1 _ _ _) = _ =>
+     destruct (ty_eqb (type_of t1) (type_of t2)) eqn:T end;
     [|rewrite !diffx_type by (assumption || reflexivity); cbn [fst]; apply report_R; assumption]);
   apply same_type_shape in T; inversion T; subst.
   - rewrite !diffx_atom by (assumption || reflexivity). cbn [fst].
